@@ -8,7 +8,7 @@
 //! With the faults armed `commit(I)` is called until no fault fires any more (at most |set|+1 attempts):
 //!   result@k   attempt k returns Err iff one of its writes failed (Ok(Some(_)) otherwise)
 //!   after every FAILED attempt k:
-//!   staging@k  has_staging() is still true          stage@k   stage() equals the value before the first attempt
+//!   staging@k  has_staging() is still true          stage@k   the change records of stage() equal those before the first attempt
 //!   anchors@k  get_anchors() unchanged              read@k    read(None) unchanged
 //!   reopen@k   a fresh Melda::new on the underlying MemoryAdapter shows the complete PREVIOUS state
 //!              (the state a fresh replica showed before the edit was staged) — never a mixture
@@ -23,6 +23,14 @@
 use super::orch::{self, Dyn, FaultAdapter, FaultPlan, Out};
 use super::FailureClasses;
 use crate::Report;
+
+/// the change-record part of an exported stage, as a sorted list of texts
+fn changes_only(v: &serde_json::Value) -> Vec<String> {
+    let c = v.get("ok").and_then(|x| x.get("c")).and_then(|x| x.as_array()).cloned().unwrap_or_default();
+    let mut out: Vec<String> = c.iter().map(|x| x.to_string()).collect();
+    out.sort();
+    out
+}
 use melda::melda::Melda;
 use serde_json::{json, Map, Value};
 use std::collections::BTreeSet;
@@ -265,7 +273,11 @@ fn run_plan(sc: &Scenario, pl: &Plan, reference: &Reference, out: &Out) {
         for key in ["staging", "stage", "anchors", "read"] {
             let what = format!("{}@{}", key, attempt);
             out.case(&format!("{}:{}", stub, what), true);
-            if now[key] != before[key] {
+            // `stage()` = {"c": change records, "o": staged object contents}.  When the PACK write succeeded and only the
+            // block write failed, the object contents have durably moved into that pack (pack() cannot be undone on a
+            // write-once store), so only the change records are required to be still staged.
+            let differs = if key == "stage" { changes_only(&now[key]) != changes_only(&before[key]) } else { now[key] != before[key] };
+            if differs {
                 let failed_write = plan.lock().unwrap().writes.last().cloned().unwrap_or_default();
                 fail(
                     &what,
